@@ -584,7 +584,8 @@ def _nat(hist, mh, sd_state):
 
 
 def phase_length(hist, sr, sd_state):
-    if not sr.mh:
+    if not sr.mh or hist.rerun is not None:
+        # (a scheduler shuts down once: nothing is sent in a second run)
         return 0.0
     longest = max(_nat(hist, mh, sd_state) for mh in sr.mh)
     limit = sr.spec['sd_timeout']
